@@ -117,7 +117,7 @@ PROPS["C07"] = {
     "violation_if": {"cancel": r"^HANG"},
     "lean_module": "LispModel.Props.C07",
     "engines": [{"name": "cancel", "quick": 2500, "thorough": 40000},
-                {"name": "cancelwall", "quick": 78, "thorough": 520}],
+                {"name": "cancelwall", "quick": 84, "thorough": 560}],
     "technique": "Lean 4 theorems about the poll structure of the evaluator model (every loop iteration polls first) + poll-counting context correspondence",
     "level_text": "PARTIAL: the logic is proved in poll ticks (after the cancelling poll every evaluation step returns the timeout error at once, no effect "
                   "is appended, the number of further polls is bounded by the try nesting); the tie runs real EVAL under a context whose Done() closes at the "
@@ -245,24 +245,27 @@ PROPS["C10"] = {
 }
 
 PROPS["C02"] = {
-    "model_is_spec": ["hist"],
+    "model_is_spec": ["hist", "pkgreg"],
     "lean_module": "LispModel.Props.C02",
     "tie_modules": ["LispModel.Tie.Appends"],
-    "engines": [{"name": "hist", "quick": 4000, "thorough": 100000}],
+    "engines": [{"name": "hist", "quick": 4000, "thorough": 100000},
+                {"name": "pkgreg", "quick": 1500, "thorough": 40000}],
     "technique": "Lean 4 frame theorem over a Go slice/array heap model + regenerated append-site facts + differential correspondence on operation histories",
     "level_text": "Kernel-checked: every collection builtin, modelled at the level of Go slices (backing array, offset, length, capacity, append in place "
                   "when capacity allows), refines its pure meaning and leaves every live value reading back unchanged (step_frame), hence histories of any "
                   "length and fan-out are immutable; the slice-level model is tied to the source by facts regenerated on every run (every append site in the "
                   "value-producing functions is fresh, subvec uses a 3-index slice) and to the behaviour by histories in which every earlier binding is "
-                  "re-read after every step and compared with the pure model.",
+                  "re-read after every step and compared with the pure model; "
+                  "registration-time updates of the _PACKAGES_ registry are a second heap model with its own frame theorem over all histories (engine pkgreg).",
     "level_note": _EVAL_NOTE + " The heap model (Heap.lean/CoreHeap.lean) mirrors which array each builtin writes; Go's append/growslice policy is a parameter.",
-    "assumptions": ["_PACKAGES_ is mutated in place by call.call at registration time: host-side registration, not a lisp operation",
+    "assumptions": ["the _PACKAGES_ registry is modelled on its own heap of map/set objects (PkgReg.lean, engine pkgreg): registrations interleaved with program bindings",
                     "with-meta / meta are modelled at slice level only (the evaluator model has no metadata)"],
 }
 
 PROPS["C17"] = {
     "lean_module": "LispModel.Props.C17",
-    "engines": [{"name": "pos", "quick": 4000, "thorough": 80000}],
+    "engines": [{"name": "pos", "quick": 4000, "thorough": 80000},
+                {"name": "posalg", "quick": 4000, "thorough": 80000}],
     "technique": "Lean 4 theorems about reader cursors and the flow of positions through the evaluator model + differential correspondence of error positions on programs with one planted fault",
     "level_text": "PARTIAL (rows only; finding D16b known): reader theorems (cursors name the module, list rows span opening to closing token, children within "
                   "parents, rows = newline counts, unshifted by comments/blank lines/raw strings) and the invariant that every position in a returned error is a "
